@@ -24,8 +24,13 @@ import time
 
 VERIF = os.path.dirname(os.path.dirname(os.path.abspath(__file__)))
 sys.path.insert(0, VERIF)
+if os.environ.get("VERIF_REPO"):
+    sys.path.insert(1, os.environ["VERIF_REPO"])
 PY = os.path.join(VERIF, ".venv", "bin", "python")
-ENV = dict(os.environ, PYTHONHASHSEED="0", PYTHONDONTWRITEBYTECODE="1", PYTHONPATH=VERIF)
+# VERIF_REPO (development only: seeded-defect runs against a scratch worktree) puts another checkout ahead of /repo
+REPO = os.environ.get("VERIF_REPO") or "/repo"
+ENV = dict(os.environ, PYTHONHASHSEED="0", PYTHONDONTWRITEBYTECODE="1",
+           PYTHONPATH=VERIF + (os.pathsep + REPO if REPO != "/repo" else ""))
 
 
 def _run(cmd, timeout, env=None):
@@ -338,7 +343,7 @@ def main(argv=None):
 def source_hashes(mod):
     out = []
     for f in getattr(mod, "ENCODED", []):
-        p = os.path.join("/repo", f)
+        p = os.path.join(REPO, f)
         try:
             out.append({"file": f, "sha1": hashlib.sha1(open(p, "rb").read()).hexdigest()[:12]})
         except OSError:
